@@ -12,9 +12,9 @@ pkgdir="."
 grep -q '^package reflect\|^package helpers\|^package formatter\|^package markdown' "$SEED/demo_test.go" && pkgdir="$(grep -l . /dev/null; sed -n 's/^package \([a-z]*\).*/\1/p' "$SEED/demo_test.go" | head -1)"
 case "$pkgdir" in reflect|reflect_test) pkgdir=internal/reflect;; helpers|helpers_test) pkgdir=internal/helpers;; formatter|formatter_test) pkgdir=formatter;; markdown|markdown_test) pkgdir=markdown;; *) pkgdir=.;; esac
 cp "$SEED/demo_test.go" "$WT/$pkgdir/zz_seeded_demo_test.go"
-(cd "$WT" && go test -vet=off -run TestSeededDemo -count=1 "./$pkgdir" >/tmp/sv-demo0.log 2>&1); echo "demo without change: rc=$? (want 0)"
+(cd "$WT" && go test -vet=off ${SEED_RACE:+-race} -run TestSeededDemo -count=1 "./$pkgdir" >/tmp/sv-demo0.log 2>&1); echo "demo without change: rc=$? (want 0)"
 (cd "$WT" && git apply "$SEED/patch.diff") || { echo "PATCH DOES NOT APPLY"; exit 3; }
-(cd "$WT" && go test -vet=off -run TestSeededDemo -count=1 "./$pkgdir" >/tmp/sv-demo1.log 2>&1); echo "demo with change:    rc=$? (want 1)"
+(cd "$WT" && go test -vet=off ${SEED_RACE:+-race} -run TestSeededDemo -count=1 "./$pkgdir" >/tmp/sv-demo1.log 2>&1); echo "demo with change:    rc=$? (want 1)"
 rm -f "$WT/$pkgdir/zz_seeded_demo_test.go"
 (cd "$WT" && go test -vet=off -count=1 . ./internal/... ./formatter ./markdown ./diff >/tmp/sv-suite.log 2>&1); echo "suite with change:   rc=$? (want 0)"
 "$ROOT/tools/runon.sh" "$WT" "$ID" "$TIER" 2>&1 | grep -E "^(VIOLATION|FAILURE-DETAIL|OK|INCONCLUSIVE|KNOWN)" | cut -c1-400
